@@ -149,6 +149,19 @@ class SampledCurve:
     def dist(self, q):
         return self.closest(q)[0]
 
+    def ambiguous(self, q, factor=1.5):
+        """True when the distance from q has a second local minimum (over the dense samples) that is less than
+        `factor` times the global one: 'the closest point' is then ill-conditioned and a local optimiser may
+        legitimately end in either basin"""
+        d = np.linalg.norm(self.pts - arr(q), axis=1)
+        i0 = int(np.argmin(d))
+        left = np.concatenate(([np.inf], d[:-1]))
+        right = np.concatenate((d[1:], [np.inf]))
+        for j in np.nonzero((d <= left) & (d <= right))[0]:
+            if abs(int(j) - i0) > 2 and d[j] < factor * d[i0] + 1e-12:
+                return True
+        return False
+
 
 # ---- parametric surfaces -----------------------------------------------------------------------------
 class Surface:
